@@ -480,8 +480,11 @@ def _check_calls(prog: Program, res: Result):
     for fq, pname in ((q, "keep_contour"), ("ghedesigner.design.DesignBiRectangleConstrained.__init__", "keep_contour")):
         f2 = prog.func(fq)
         d = f2.defaults().get(pname)
+        dv = d
+        if isinstance(dv, ast.Name) and dv.id in prog.modules[f2.module].constants:
+            dv = prog.modules[f2.module].constants[dv.id]  # a named module-level constant
         try:
-            v = ast.literal_eval(d)
+            v = ast.literal_eval(dv)
         except Exception:
             v = None
         ok = v == [True, False] or v == (True, False)
@@ -496,8 +499,10 @@ def _check_calls(prog: Program, res: Result):
     if len(call) != 1:
         raise AnalysisError(f"{dq}: call of polygonal_land_constraint not found")
     b = bind_args(fi, call[0])
-    ok = ast.unparse(b.get("keep_contour", ast.Name(id="keep_contour"))) == "keep_contour" and ast.unparse(b.get("property_boundary")) == "self.geometric_constraints.property_boundary" \
-        and ast.unparse(b.get("no_go_boundaries")) == "self.geometric_constraints.no_go_boundaries"
+    from ..model import canonical_chain
+
+    ok = ast.unparse(b.get("keep_contour", ast.Name(id="keep_contour"))) == "keep_contour" and canonical_chain(prog, dfi, b.get("property_boundary")) == "self.geometric_constraints.property_boundary" \
+        and canonical_chain(prog, dfi, b.get("no_go_boundaries")) == "self.geometric_constraints.no_go_boundaries"
     res.ob("R04.2", "the design passes the user's property / no-go outlines and its own keep_contour", ok, prog.loc(dfi, call[0]))
     if not ok:
         res.violation("R04.2", "design-call", prog.loc(dfi, call[0]), dq, f"polygonal_land_constraint is called with {[f'{k}={ast.unparse(v)}' for k, v in b.items()]}")
